@@ -72,7 +72,7 @@ def run_case(case):
         lc, cm = None, patched_pct(case, rec)
     else:
         lc = recording_learner(C.BASE_LEARNERS[base_kind(case["algo"])], rec)
-    ctx = drive(case, [m], learner_cls=lc, build_cm=cm, use_budget=not case.get("stub"))
+    ctx = drive(case, [m], learner_cls=lc, build_cm=cm, use_budget=not case.get("stub"), own=PROP)
     res = result_of(ctx, [m], prefix=PROP, nontrivial=nontrivial)
     if case.get("stub"):
         res["obs"]["stub_schedules_enumerated"] = 1
